@@ -12,6 +12,8 @@ use identity_document::verifiable::JwsVerificationOptions;
 use identity_jose::jwk::Jwk;
 use identity_jose::jws::{CompactJwsEncoder, JwsAlgorithm, JwsHeader, JwsVerifierFn};
 use identity_verification::MethodScope;
+use identity_credential::credential::Jwt;
+use identity_document::document::CoreDocument;
 
 fn sign_typed(claims: &str, kid: &str, typ: &str, k: &Jwk) -> String {
   let mut h = JwsHeader::new();
@@ -77,6 +79,24 @@ pub fn sd_jwt(cex: &Value) -> Result<String, String> {
     let wrong = sign_jwt(&encoded, Some(&kid), None, &method_key(ISSUER, "#auth"));
     expect("cred", "signed with another key", validator.validate_credential::<_, Object>(&SdJwt::new(wrong.as_str().to_string(), disclosures.clone(), None), &issuer, &copts(), FailFast::FirstError).is_ok(), false);
     expect("cred", "validated against another document", validator.validate_credential::<_, Object>(&sd(None, disclosures.clone()), &holder, &copts(), FailFast::FirstError).is_ok(), false);
+    // several trusted issuers: the token's issuer has to be the DID of the method that verified it
+    {
+      let other_doc = doc(OTHER, &[(OTHER, "#assert", MethodScope::assertion_method())]);
+      let cred_o = credential(OTHER, HOLDER, ts(t0), Some(ts(t0 + 1000)));
+      let mut enc_o = SdObjectEncoder::new(&cred_o.serialize_jwt(None).unwrap()).unwrap();
+      enc_o.add_sd_alg_property();
+      let enc_o = enc_o.try_to_string().unwrap();
+      let forged = sign_jwt(&enc_o, Some(&kid), None, &method_key(ISSUER, "#assert")); // names OTHER, signed by ISSUER
+      let okid = format!("{OTHER}#assert");
+      let honest = sign_jwt(&enc_o, Some(&okid), None, &method_key(OTHER, "#assert"));
+      let vs = |j: &Jwt, docs: &[CoreDocument]| {
+        validator.verify_signature::<_, Object>(&SdJwt::new(j.as_str().to_string(), vec![], None), docs, &JwsVerificationOptions::default()).is_ok()
+      };
+      expect("cred", "names trusted B, signed by trusted A (A,B)", vs(&forged, &[issuer.clone(), other_doc.clone()]), false);
+      expect("cred", "names trusted B, signed by trusted A (B,A)", vs(&forged, &[other_doc.clone(), issuer.clone()]), false);
+      expect("cred", "honest token of B among (A,B)", vs(&honest, &[issuer.clone(), other_doc.clone()]), true);
+      expect("cred", "honest token of B, only A trusted", vs(&honest, &[issuer.clone()]), false);
+    }
     // ---- key binding
     let kopts = || KeyBindingJWTValidationOptions::new().nonce("n1").aud("aud1").earliest_issuance_date(ts(t0)).latest_issuance_date(ts(t0));
     let k = |s: &SdJwt, o: &KeyBindingJWTValidationOptions| no_panic(std::panic::AssertUnwindSafe(|| validator.validate_key_binding_jwt(s, &holder, o).is_ok()));
